@@ -126,9 +126,11 @@ pub fn clear_rules() {
 pub fn append_rule(rule: Arc<Rule>) -> bool {
     #[cfg(flea1lt_sentinel_rust_verif)]
     crate::verif::sched::point("lk:circuitbreaker.CURRENT_RULES:lock");
-    if CURRENT_RULES
-        .lock()
-        .unwrap()
+    // the rule maps stay locked from the membership test to the rebuild, in the order of
+    // `load_rules` (current rules, breaker map, breaker rules): a concurrent clear or load must
+    // not slip in between the insert and the rebuild
+    let mut current_rules = CURRENT_RULES.lock().unwrap();
+    if current_rules
         .get(&rule.resource)
         .unwrap_or(&HashSet::new())
         .contains(&rule)
@@ -139,20 +141,12 @@ pub fn append_rule(rule: Arc<Rule>) -> bool {
         Ok(_) => {
             #[cfg(flea1lt_sentinel_rust_verif)]
             crate::verif::sched::point("lk:circuitbreaker.CURRENT_RULES:lock");
-            CURRENT_RULES
-                .lock()
-                .unwrap()
+            current_rules
                 .entry(rule.resource.clone())
                 .or_default()
                 .insert(Arc::clone(&rule));
             #[cfg(flea1lt_sentinel_rust_verif)]
             crate::verif::sched::point("lk:circuitbreaker.BREAKER_RULES:write");
-            BREAKER_RULES
-                .write()
-                .unwrap()
-                .entry(rule.resource.clone())
-                .or_default()
-                .insert(Arc::clone(&rule));
         }
         Err(err) => {
             logging::warn!(
@@ -171,7 +165,11 @@ pub fn append_rule(rule: Arc<Rule>) -> bool {
     let mut breaker_map = BREAKER_MAP.write().unwrap();
     #[cfg(flea1lt_sentinel_rust_verif)]
     crate::verif::sched::point("lk:circuitbreaker.BREAKER_RULES:read");
-    let breaker_rules = BREAKER_RULES.read().unwrap();
+    let mut breaker_rules = BREAKER_RULES.write().unwrap();
+    breaker_rules
+        .entry(rule.resource.clone())
+        .or_default()
+        .insert(Arc::clone(&rule));
     // the helper moves every reused breaker out of the old list into the new one,
     // so the new list is the complete set of breakers of the resource
     let new_cbs_of_res = build_resource_circuit_breaker(
